@@ -7,6 +7,7 @@
   harness/envh (run-focused generator profile; probe calls record the variables they are
   handed; Ev_RunEvent capture) with the trace monitor.
 -/
+import ControlModel.Gen.EnvBodies
 import ControlModel.Proofs.EnvRun
 
 open EnvM
@@ -197,6 +198,102 @@ example :
     forcedByGlue env [] .STOP_ACTIVITY false false = false ∧
     (step [] 0 env (.control .STOP_ACTIVITY false false)).1.vars.eoeor = .val 4 ∧
     (step [] 0 env (.control .STOP_ACTIVITY false false)).1.st = .ERROR := by decide
+
+/-! ## the task-level bodies; runs whose tasks never got to RUNNING -/
+
+/-- What the model assumes about the BODIES of the transitions is what the source says (go/ast over
+    core/environment/transition_*.go, re-read on every run): there are six `do` methods — CONFIGURE, DEPLOY,
+    GO_ERROR, RESET, START_ACTIVITY, STOP_ACTIVITY —; the only write any of them makes to the environment or
+    through a variable / state setter (SetRuntimeVar(s), DeleteRuntimeVar(s), Set, Del, setState, SetState) is
+    `env.currentRunNumber = 0` in START_ACTIVITY's failure branch (`bodyRows`, i.e. `bodyWrites`): no body
+    touches run_number, last_run_number, the four run timestamps or the state; and the only things a body asks
+    of the environment are its id, its workflow, the event stream (and, for START_ACTIVITY, a global variable
+    READ; for DEPLOY, the FLP list and the workflow-adapter subscriptions). This is what the scripted bodies of
+    the harness (T / C requests, DEPLOY always) replicate by hand — and what the real bodies (TR / CR requests)
+    are observed to do. -/
+theorem C10_transition_bodies_are_code :
+    Gen.EnvBodies.transitions.map (·.2) = bodyEvents.map Ev.name ∧
+    Gen.EnvBodies.writes = bodyRows ∧
+    Gen.EnvBodies.envCalls =
+      [("CONFIGURE", ["Id", "Workflow", "sendEnvironmentEvent"]),
+       ("DEPLOY", ["GetFLPs", "Id", "Workflow", "id.String", "sendEnvironmentEvent", "wfAdapter.SubscribeToStateChange",
+                   "wfAdapter.SubscribeToStatusChange", "wfAdapter.UnsubscribeFromStateChange", "wfAdapter.UnsubscribeFromStatusChange"]),
+       ("GO_ERROR", []),
+       ("RESET", ["Id", "Workflow", "sendEnvironmentEvent"]),
+       ("START_ACTIVITY", ["GlobalVars.Get", "Id", "Workflow", "sendEnvironmentEvent"]),
+       ("STOP_ACTIVITY", ["Id", "Workflow", "sendEnvironmentEvent"])] := by decide
+
+/-- …and `leaveState` (the model of leave_<state> with the body run by handlerFunc) does to the environment
+    exactly what `bodyWrites` says, for ALL hooks, events and outcomes: the hook passes do not depend on the
+    body's outcome; if they let the event go on, the environment afterwards is the one they left with the
+    body's writes applied; the event is cancelled by the body iff the body was reached and the tasks failed. -/
+theorem C10_model_body_is_bodyWrites (env : Env) (hooks : List Hook) (e : Ev) (b : Bool) :
+    (leaveState env hooks e b).1 =
+      (if (leaveState env hooks e true).2.2 = none then applyBody (leaveState env hooks e true).1 e b
+       else (leaveState env hooks e true).1) ∧
+    ((leaveState env hooks e b).2.2 = some .cancelledBody ↔ ((leaveState env hooks e true).2.2 = none ∧ b = false)) :=
+  leaveState_body env hooks e b
+
+/-- No body, no callback, no transition ever REMOVES an end-of-run stamp: once run_end_time_ms and
+    run_end_completion_time_ms are there (START_ACTIVITY puts them there, empty, when it hands out the number)
+    they stay there — set or empty — through every TryTransition, START_ACTIVITY included, however it ends.
+    (The guarded writers that close a run write only when the key is PRESENT and empty.) -/
+theorem C10_end_stamps_never_removed (env : Env) (hooks : List Hook) (e : Ev) (b r : Bool)
+    (hs : env.vars.soeor ≠ .absent) (he : env.vars.eoeor ≠ .absent) :
+    (fsmEvent env hooks e b r).1.vars.soeor ≠ .absent ∧ (fsmEvent env hooks e b r).1.vars.eoeor ≠ .absent :=
+  fsmEvent_present env hooks e b r ⟨hs, he⟩
+
+/-- A START_ACTIVITY that is cancelled by its BODY (the tasks refuse to go to RUNNING) — for all hooks and
+    environments — leaves the environment where it was, with currentRunNumber back to 0, and with the run it
+    had opened still OPEN in the variables: the number it handed out, the start stamp it set, and the three
+    later stamps present and empty, so that whatever closes the run next finds them. -/
+theorem C10_failed_start_leaves_run_open (env : Env) (hooks : List Hook) (b r : Bool)
+    (h : (fsmEvent env hooks .START_ACTIVITY b r).2.2 = .cancelledBody) :
+    (fsmEvent env hooks .START_ACTIVITY b r).1.st = env.st ∧
+    (fsmEvent env hooks .START_ACTIVITY b r).1.rn = 0 ∧
+    (fsmEvent env hooks .START_ACTIVITY b r).1.vars.rnVar = some (env.counter + 1) ∧
+    (fsmEvent env hooks .START_ACTIVITY b r).1.vars.sosor = .val (env.clock + 1) ∧
+    (fsmEvent env hooks .START_ACTIVITY b r).1.vars.eosor = .empty ∧
+    (fsmEvent env hooks .START_ACTIVITY b r).1.vars.soeor = .empty ∧
+    (fsmEvent env hooks .START_ACTIVITY b r).1.vars.eoeor = .empty :=
+  fsmEvent_failed_start env hooks b r h
+
+/-- However a request takes the environment to ERROR from another state — GO_ERROR through TryTransition,
+    an API request whose failure is followed by a GO_ERROR that goes through — both end stamps are SET
+    afterwards, provided they were there (as they are from the first START_ACTIVITY on): in particular a run
+    whose START_ACTIVITY was cancelled after the number was handed out (previous theorem: the environment is
+    still CONFIGURED, the stamps present and empty) is closed by the GO_ERROR that follows. Excluded, as in
+    `C10_end_stamps_partial`: an API request after which the glue had to force the state (`forcedByGlue`). -/
+theorem C10_end_stamps_on_error (env : Env) (hooks : List Hook) (q : Req) (n : Nat)
+    (hne : env.st ≠ .ERROR) (hs : env.vars.soeor ≠ .absent) (he : env.vars.eoeor ≠ .absent)
+    (hyp : match q with | .control e b r => forcedByGlue env hooks e b r = false | _ => True)
+    (herr : (step hooks n env q).1.st = .ERROR) :
+    (step hooks n env q).1.vars.soeor.isVal = true ∧ (step hooks n env q).1.vars.eoeor.isVal = true := by
+  cases q with
+  | try_ e b r => exact fsmEvent_error_stamps env hooks e b r hne ⟨hs, he⟩ herr
+  | control e b r =>
+    simp only [step] at herr ⊢
+    split at herr
+    · exact absurd herr hne
+    · rename_i hg
+      rw [if_neg hg]
+      exact controlApi_error_stamps env hooks e b r hne ⟨hs, he⟩ hyp herr
+  | teardown f r1 r2 =>
+    simp only [step] at herr
+    split at herr
+    · exact absurd herr hne
+    · rcases teardown_st env hooks f r1 r2 n with ⟨h, _, _⟩ | ⟨_, h, _, _⟩
+      · exact absurd (h.symm.trans herr) hne
+      · rw [h] at herr; cases herr
+
+/-- Non-vacuity, end to end on a fresh environment: the tasks refuse to start (the run has number 1 and a
+    start stamp, the environment is still CONFIGURED, currentRunNumber is 0 again), the API glue's GO_ERROR
+    closes the run: SOSOR unchanged, both end stamps set, in order. -/
+example :
+    let reqs : List Req := [.try_ .DEPLOY true false, .try_ .CONFIGURE true false, .control .START_ACTIVITY false false]
+    (finalEnv [] 1 {} reqs).vars = { rnVar := some 1, lastRn := none, sosor := .val 1, eosor := .empty, soeor := .val 2, eoeor := .val 3 } ∧
+    (finalEnv [] 1 {} reqs).st = .ERROR ∧ (finalEnv [] 1 {} reqs).rn = 0 ∧
+    forcedByGlue (finalEnv [] 1 {} (reqs.take 2)) [] .START_ACTIVITY false false = false := by decide
 
 /-- Non-vacuity / end-to-end: a full START…STOP cycle with hooks on a fresh environment hands
     out number 1, stamps SOSOR < EOSOR < SOEOR < EOEOR and retires the number. -/
